@@ -229,5 +229,86 @@ class Relation(Sub):
         return Result(viol, nt, labels)
 
 
+@st.composite
+def st_crowd(draw):
+    """A conjunction whose first-scanned condition is shared by a crowd of NEWER non-matching events: M matching events,
+    an explicit limit >= M (so the limit truncates nothing), then 20..90 neighbours that carry one requested value but
+    fail the other condition. Asked through the REQ path (the planner sees the client's limit there)."""
+    shape = draw(st.sampled_from(["tag+tag", "tag+tag", "tag+kind", "author+tag", "kind+since", "author+kind+tag"]))
+    m = draw(st.integers(1, 3))
+    limit = draw(st.sampled_from([m, m, m + 1, 2 * m, 5]))
+    x, y = "aa" * 32, "bb" * 32
+    author, kind = qgen.PUBS[2], 1
+    if shape == "tag+tag":
+        f = {"#e": [x], "#p": [y]}
+        good, bad = [["e", x], ["p", y]], draw(st.sampled_from([[["e", x], ["p", y[:-1] + "c"]], [["p", y], ["e", x[:-1] + "0"]],
+                                                               [["e", x]], [["p", y]]]))
+    elif shape == "tag+kind":
+        f = {"#t": ["a"], "kinds": [1]}
+        good, bad = [["t", "a"]], draw(st.sampled_from([[["t", "a"]], [["t", "ab"]]]))
+    elif shape == "author+tag":
+        f = {"authors": [author], "#t": ["a"]}
+        good, bad = [["t", "a"]], draw(st.sampled_from([[["t", "b"]], []]))
+    elif shape == "kind+since":
+        f = {"kinds": [1], "since": E.T0 - 5}
+        good, bad = [], []
+    else:
+        f = {"authors": [author], "kinds": [1], "#t": ["a"]}
+        good, bad = [["t", "a"]], [["t", "ab"]]
+    f["limit"] = limit
+    store = [E.free("%064x" % (0x1000 + i), author, kind, E.T0 + i, good, "m") for i in range(m)]
+    n = draw(st.sampled_from([20, 25, 40, 61, 90]))
+    newer = draw(st.sampled_from([True, True, False]))
+    crowd = []
+    for j in range(n):
+        ev = E.free("%064x" % (0x2000 + j), author, kind, (E.T0 + 10 + j) if newer else (E.T0 - 100 - j), bad, "n")
+        if shape == "tag+kind" and bad == good:
+            ev["kind"] = 2
+        if shape == "kind+since":
+            ev["kind"] = draw(st.sampled_from([2, 256]))
+        if shape == "author+tag" and not bad and j % 2:
+            ev["pubkey"] = qgen.PUBS[3]
+            ev["tags"] = [["t", "a"]]
+        if shape == "author+kind+tag":
+            ev["kind"] = 1 if j % 2 else 2
+            ev["tags"] = [["t", "ab"]] if j % 2 else [["t", "a"]]
+        crowd.append(ev)
+    return {"backend": draw(st.sampled_from(["kv", "kv", "sql"])), "filter": f, "store": store, "crowd": crowd, "shape": shape}
+
+
+class Crowd(Sub):
+    name = "crowd"
+    examples = {"quick": 240, "thorough": 1920}
+    shards = {"quick": 8, "thorough": 16}
+    rule = ("non-trivial = >= 20 newer non-matching events sharing one requested value with the matching ones, explicit "
+            "limit >= number of matching events, asked as a REQ")
+
+    def strategy(self, tier):
+        return st_crowd()
+
+    def run_case(self, case):
+        return H.run(self._run, case)
+
+    async def _run(self, case):
+        backend, f = case["backend"], case["filter"]
+        viol = []
+        async with H.Rig(backend, validators=[]) as rig:
+            for ev in case["store"]:
+                await rig.add(ev)
+            want = sorted(e["id"] for e in case["store"])
+            evs, eose, err = await rig.req([f])
+            r0 = sorted(e["id"] for e in evs)
+            crowd = [n for n in case["crowd"] if not R.may_match(n, f)]
+            for n in crowd:
+                await rig.add(n)
+            evs, eose, err = await rig.req([f])
+            r1 = sorted(e["id"] for e in evs)
+            if r0 != want or r1 != r0:
+                viol.append(V("%s-crowd-changes-answer" % backend, "adding non-matching events never changes the answer",
+                              backend=backend, filter=f, shape=case["shape"], before=r0, after=r1, expected=want,
+                              crowd=len(crowd), error=err))
+        return Result(viol, len(crowd) >= 20, ["backend:" + backend, "shape:" + case["shape"]])
+
+
 SUBCHECKS = [Relation("neighbours", 1600, 12800), Relation("strengthen", 800, 6400),
-             Relation("union", 800, 6400), Relation("permute", 500, 4000)]
+             Relation("union", 800, 6400), Relation("permute", 500, 4000), Crowd()]
